@@ -156,6 +156,7 @@ package service
 //@ func (*PushPullHandler).finalize
 //@   mode wrap
 //@   props C12 C16 C18
+//@   recovers
 //@   requires handlerWF(its) && its.lock != nil
 //@   requires[reply-prepared] its.resPushPullPack != nil && its.retCh != nil
 //@   requires[locked-flag-is-exact] its.locked == sel(G.held, its.lock)
@@ -224,7 +225,8 @@ package service
 // end of the log never exceeds what is stored.
 //@ func (*PushPullHandler).process
 //@   mode wrap
-//@   props C12 C16 C06 C08
+//@   props C12 C16 C06 C08 C13
+//@   defers (*PushPullHandler).finalize
 //@   requires handlerWF(its) && its.lock != nil && retCh != nil && its.datatypeDoc == nil && len(its.pushingOperations) == 0
 //@   requires its.gotPushPullPack.CheckPoint != nil && allocated(its.gotPushPullPack.CheckPoint) && reqOpsWF(its.gotPushPullPack.Operations) && its.gotPushPullPack.CheckPoint.Sseq < 4611686018427387904
 //@   requires[nothing-held] !sel(G.held, its.lock)
@@ -293,12 +295,14 @@ package service
 //@   requires svcWF(its) && in != nil && (forall p in in.PushPullPacks :: p != nil)
 //@   loop 0 invariant[handlers-so-far] spawned("service.(*PushPullHandler).process") == old(spawned("service.(*PushPullHandler).process")) + rangeindex + 1 && len(chanList) == rangeindex + 1 && rangeindex + 1 <= len(in.PushPullPacks)
 //@   loop 1 invariant[cases] 0 <= rangeindex + 1
-//@   loop 2 invariant[remaining] remainingChan >= 0
+//@   loop 2 invariant[remaining] remainingChan >= 0 && remainingChan <= len(chanList)
+//@   loop 2 invariant[collected-so-far] G.selected == old(G.selected) + len(chanList) - remainingChan
 //@   loop 2 decreases remainingChan
 //@   ensures[answer-or-error] (result0 != nil) == (result1 == nil)
 //@   ensures[refused-starts-no-handler] result1 != nil ==> spawned("service.(*PushPullHandler).process") == old(spawned("service.(*PushPullHandler).process"))
 //@   ensures[one-handler-per-pack] result1 == nil ==> spawned("service.(*PushPullHandler).process") == old(spawned("service.(*PushPullHandler).process")) + len(in.PushPullPacks)
-//@   modifies PushPullHandler.lock, G:spawned:service.(*PushPullHandler).process
+//@   ensures[every-started-handler-is-collected] result1 == nil ==> G.selected == old(G.selected) + len(in.PushPullPacks)
+//@   modifies PushPullHandler.lock, G:spawned:service.(*PushPullHandler).process, G:selected
 
 // PatchDocument (REST): rebuilds the stored document, patches it to the target JSON and pushes the
 // emitted operations through a push-pull handler as the volatile admin client. A document that
